@@ -94,6 +94,17 @@ func (d *DiskKV) appendLog(mut *proto.Mutation) error {
 
 	if err := d.log.Write(d.counter, logBuf); err != nil {
 		d.logger.Error("Error appending to log", zap.Uint64("counter", d.counter), zap.String("mutation", mut.GetType().String()), zap.Error(err))
+		// the log keeps the entry in its in-memory tail even though it never reached the file;
+		// a later TruncateBack would write it out in place of an acknowledged entry. Reopen
+		// the log so that its tail is what is on disk
+		if cerr := d.log.Close(); cerr != nil {
+			d.logger.Error("Error closing log after a failed append", zap.Error(cerr))
+		}
+		if l, oerr := openLog(d.cfg); oerr != nil {
+			d.logger.Error("Error reopening log after a failed append", zap.Error(oerr))
+		} else {
+			d.log = l
+		}
 		return err
 	}
 	d.counter += 1
